@@ -418,8 +418,9 @@ def check_c05(repo, tier):
                                 from .shape import sz_prod
                                 prod = mx.mul(mx.mul(A.unfolding_mx(uc[-1], sz_prod(uc[-1].shape[:-1])), ms), A.unfolding_mx(vc[0], vc[0].shape[0]))
                                 prod = mx.untruncate(prod) if trunc else mx.canon(prod)
-                                want = mx.canon(l2rules.pair_mx(before[index - 1], before[index]))
-                                if prod is None:
+                                want = l2rules.pair_mx(before[index - 1], before[index])
+                                want = mx.untruncate(want) if trunc else mx.canon(want)
+                                if prod is None or want is None:
                                     unknown.append('truncated factors of an unregistered decomposition')
                                 elif prod != want:
                                     new_atoms = {f[:2] for f in prod if f[0] == 'src'} - {f[:2] for f in want if f[0] == 'src'}
@@ -485,8 +486,9 @@ def check_c05(repo, tier):
                                 else:
                                     sw = mx.swap_inverse(mx.canon(got))
                                     sw = mx.untruncate(sw) if trunc else mx.canon(sw)
-                                    want = mx.canon(l2rules.pair_mx(before[index - 1], before[index]))
-                                    if sw is None:
+                                    want = l2rules.pair_mx(before[index - 1], before[index])
+                                    want = mx.untruncate(want) if trunc else mx.canon(want)
+                                    if sw is None or want is None:
                                         unknown.append('truncated factors of an unregistered decomposition')
                                     elif sw != want:
                                         new_atoms = {f[:2] for f in sw if f[0] == 'src'} - {f[:2] for f in want if f[0] == 'src'}
